@@ -295,7 +295,8 @@ theorem step_stable_routes (B : KBlocks K V) (lt : K → K → Bool) (c c' : Con
         · exact hw
         · exfalso
           cases k <;> first | exact hw | (simp [isDelK] at hdel)
-      exact (B.id lt c.P t (stepSt c t th0) k (stepHeld th0) (othersWit c t) hdel hkp hpre hko hkpre hcov
+      have h4 : 4 ≤ (stepSt c t th0).tree.order := hinv.four htm (by rw [hp]; exact hdel)
+      exact (B.id lt c.P t (stepSt c t th0) k (stepHeld th0) (othersWit c t) hdel h4 hkp hpre hko hkpre hcov
         hk.ord hkpos hwit hI0).2
   | yielded k =>
     simp only
@@ -423,10 +424,11 @@ theorem reachable_cursorPosW (B : KBlocks K V) (lt : K → K → Bool) (P : Para
     (progs : List (List (COp K V)))
     (hkp : KParams lt P) (ht : TreeOk none tree) (hord : OrdTree lt tree) (hsep : SepTree lt tree)
     (ho : tree.order = P.order) (hp : PadOk P) (hd : Disciplined progs)
+    (hdel : 4 ≤ tree.order ∨ NoDelete progs)
     (c : Config K V) (hr : Reachable (Config.init P tree progs) c) :
     KFInv lt c ∧ ∀ th ∈ c.threads, CursorPosW lt c.tree th := by
   induction hr with
-  | refl => exact ⟨init_kfinv lt P tree progs hkp ht hord hsep ho hp hd, init_cursorPosW lt P tree progs⟩
+  | refl => exact ⟨init_kfinv lt P tree progs hkp ht hord hsep ho hp hd hdel, init_cursorPosW lt P tree progs⟩
   | @step c1 c2 t _ hs ih => exact ⟨step_kfinv B lt c1 c2 t hs ih.1, step_cursorPosW B lt c1 c2 t hs ih.1 ih.2⟩
 
 /-- **C04, the invariant**: in every reachable configuration every open cursor is positioned with
@@ -436,9 +438,10 @@ theorem reachable_cursorPos (B : KBlocks K V) (lt : K → K → Bool) (P : Param
     (progs : List (List (COp K V)))
     (hkp : KParams lt P) (ht : TreeOk none tree) (hord : OrdTree lt tree) (hsep : SepTree lt tree)
     (ho : tree.order = P.order) (hp : PadOk P) (hd : Disciplined progs)
+    (hdel : 4 ≤ tree.order ∨ NoDelete progs)
     (c : Config K V) (hr : Reachable (Config.init P tree progs) c) :
     ∀ th ∈ c.threads, CursorPosW lt c.tree th ∧ (isHop th.park = false → CursorPos lt c.tree th) := by
-  obtain ⟨hinv, hw⟩ := reachable_cursorPosW B lt P tree progs hkp ht hord hsep ho hp hd c hr
+  obtain ⟨hinv, hw⟩ := reachable_cursorPosW B lt P tree progs hkp ht hord hsep ho hp hd hdel c hr
   intro th hth
   refine ⟨hw th hth, ?_⟩
   intro hnh
